@@ -1,5 +1,6 @@
 import TaurexModel.Proto
 import TaurexModel.Emission
+import TaurexModel.EmissionBreakdown
 
 namespace Taurex.Ops.C02
 open Taurex.Proto Taurex.Emission
@@ -96,8 +97,23 @@ def partialOp (args : List String) : Option String :=
       | Step.prepare i g => fN 2 ++ " " ++ fN i ++ " " ++ fN g
       | Step.evaluate g => fN 3 ++ " " ++ fN g ++ " " ++ fN 0) (partialModelSteps n (clip != 0)))) args
 
+/-- `c02.breakdown ncontrib clip` → the calls of `model_contrib`, each as `kind a b` (kind 0 initialize_profiles, 1 star.initialize
+    on grid a, 2 contribution a .prepare on grid b, 4 path_integral over the list [contribution a] on grid b); then for every
+    integral `contribution grid sedgrid` (the grid of the stellar SED its flux is divided by; 9 if none is stored) -/
+def breakdownOp (args : List String) : Option String :=
+  run (do
+    let n ← nat
+    let clip ← nat
+    let steps := contribModelSteps n (clip != 0)
+    pure (fList (fun st => match st with
+      | BStep.initProfiles => fN 0 ++ " " ++ fN 0 ++ " " ++ fN 0
+      | BStep.starInit g => fN 1 ++ " " ++ fN g ++ " " ++ fN 0
+      | BStep.prepare i g => fN 2 ++ " " ++ fN i ++ " " ++ fN g
+      | BStep.integrate i g => fN 4 ++ " " ++ fN i ++ " " ++ fN g) steps ++ " " ++
+      fList (fun t => fN t.1 ++ " " ++ fN t.2.1 ++ " " ++ fN (t.2.2.getD 9)) (normalisedBy none steps))) args
+
 def ops : List Op :=
   [("c02.planck", planckOp), ("c02.quad", quadOp), ("c02.emission", emissionOp), ("c02.contrib", contribOp),
-   ("c02.partial", partialOp)]
+   ("c02.partial", partialOp), ("c02.breakdown", breakdownOp)]
 
 end Taurex.Ops.C02
